@@ -267,3 +267,198 @@ func ZZ_C09_bmc() {
 	}
 	zzReach("end")
 }
+
+// ---------- C15: dynamic threshold
+
+func zzClampInt(v int, lo, hi uint16) int {
+	if lo != 0 && v < int(lo) {
+		v = int(lo)
+	}
+	if hi != 0 && v > int(hi) {
+		v = int(hi)
+	}
+	return v
+}
+
+// zzDynDetector: a dynamic-threshold detector in an arbitrary background state.
+func zzDynDetector(W, H, e int) *motionDetector {
+	conf := zzDetConf(W, H, e, 1, true, "")
+	d := NewMotionDetector(conf, 0, zzCam{W, H, 1})
+	for y := 0; y < H; y++ {
+		for x := 0; x < W; x++ {
+			d.background.Pix[y][x] = zzU16("bg", y*W+x)
+			w := zzF32bits("w", y*W+x)
+			zzAssume(w >= 0) // excludes NaN; weights start at 0 and only grow (capped) or reset to 0
+			d.backgroundWeight[y][x] = w
+		}
+	}
+	d.previewFrames = zzInt("previewFrames", 0)
+	d.backgroundFrames = zzInt("backgroundFrames", 0)
+	zzAssume(0 <= d.previewFrames && d.previewFrames < 1<<31 && 0 <= d.backgroundFrames && d.backgroundFrames < 1<<31)
+	d.tempThresh = zzU16("th", 0)
+	d.affectedByFCC = zzBool("prevFFC", 0)
+	return d
+}
+
+func zzClampCoord(v, lo, hi int) int {
+	if v < lo {
+		return lo
+	}
+	if v > hi {
+		return hi
+	}
+	return v
+}
+
+// ZZ_C15_update: one updateBackground call from an arbitrary background state.
+func ZZ_C15_update() {
+	W, H, e := zzParam("W"), zzParam("H"), zzParam("e")
+	d := zzDynDetector(W, H, e)
+	f := cptvframe.NewFrame(zzCam{W, H, 1})
+	zzFillFrame(f, W, H, "", 0)
+	prevFFC := zzBool("prevFFC", 0)
+	seed := d.backgroundFrames == 0
+	zzReach("pre-state")
+	avg, _ := d.updateBackground(f, prevFFC)
+	n := (H - 2*e) * (W - 2*e)
+	sum := 0
+	for y := e; y < H-e; y++ {
+		for x := e; x < W-e; x++ {
+			bg := d.background.Pix[y][x]
+			sum += int(bg)
+			zzAssert(bg <= f.Pix[y][x], "C15: background never warmer than the current frame")
+			if prevFFC || seed {
+				zzAssert(bg == f.Pix[y][x], "C15: background re-seeded from the current frame after an FFC or reset")
+			}
+			if !seed {
+				w := d.backgroundWeight[y][x]
+				zzAssert(w >= 0, "Inv: background weights stay non-negative numbers")
+				if prevFFC {
+					zzAssert(w == 0, "C15: weight cleared on re-seed")
+				}
+			}
+		}
+	}
+	for y := 0; y < H; y++ {
+		for x := 0; x < W; x++ {
+			if !zzInterior(x, y, W, H, e) {
+				zzAssert(d.background.Pix[y][x] == d.background.Pix[zzClampCoord(y, e, H-e-1)][zzClampCoord(x, e, W-e-1)], "C15: background border replicates the nearest interior pixel")
+			}
+		}
+	}
+	if n == 1 || n == 2 || (n == 4 && zzParam("MEAN4") == 1) {
+		zzReach("mean checked")
+		zzAssert(avg == float64(sum)/float64(n), "C15: returned average is the mean of the interior background")
+	}
+}
+
+// ZZ_C15_clamp: calculateThreshold for every average and every min/max setting.
+func ZZ_C15_clamp() {
+	d := zzDynDetector(1, 1, 0)
+	mean := zzInt("mean", 0)
+	frac := zzInt("frac", 0) // average = mean + frac/1024
+	zzAssume(0 <= mean && mean <= 65535 && 0 <= frac && frac < 1024)
+	zzAssume(d.tempThreshMin == 0 || d.tempThreshMax == 0 || d.tempThreshMin <= d.tempThreshMax)
+	avg := float64(mean) + float64(frac)/1024
+	zzReach("pre-state")
+	d.calculateThreshold(avg)
+	zzAssert(int(d.tempThresh) == zzClampInt(mean, d.tempThreshMin, d.tempThreshMax), "C15: recomputed threshold is the mean limited to [temp-thresh-min, temp-thresh-max]")
+}
+
+// ZZ_C15_detect: one Detect call from an arbitrary background state: whenever
+// the threshold changes it becomes the clamped mean of the interior background.
+func ZZ_C15_detect() {
+	W, H, e := zzParam("W"), zzParam("H"), zzParam("e")
+	d := zzDynDetector(W, H, e)
+	zzAssume(d.tempThreshMin == 0 || d.tempThreshMax == 0 || d.tempThreshMin <= d.tempThreshMax)
+	f := cptvframe.NewFrame(zzCam{W, H, 1})
+	zzFillFrame(f, W, H, "", 0)
+	on, last := zzI64("timeOn", 0), zzI64("lastFFC", 0)
+	zzAssume(0 <= last && last <= on && on < 1<<60)
+	f.Status.TimeOn, f.Status.LastFFCTime = time.Duration(on), time.Duration(last)
+	affected := on-last < int64(10*time.Second)
+	th0 := d.tempThresh
+	var bg0 [16]uint16
+	for y := 0; y < H; y++ {
+		for x := 0; x < W; x++ {
+			bg0[y*W+x] = d.background.Pix[y][x]
+		}
+	}
+	zzReach("pre-state")
+	d.Detect(f)
+	n := (H - 2*e) * (W - 2*e)
+	sum := 0
+	for y := e; y < H-e; y++ {
+		for x := e; x < W-e; x++ {
+			sum += int(d.background.Pix[y][x])
+		}
+	}
+	if affected {
+		zzAssert(d.tempThresh == th0, "C15: threshold never recomputed on an FFC-affected frame")
+		for y := 0; y < H; y++ {
+			for x := 0; x < W; x++ {
+				zzAssert(d.background.Pix[y][x] == bg0[y*W+x], "C15: background untouched by FFC-affected frames")
+			}
+		}
+	}
+	if d.tempThresh != th0 {
+		zzReach("threshold recomputed")
+		zzAssert(int(d.tempThresh) == zzClampInt(sum/n, d.tempThreshMin, d.tempThreshMax), "C15: recomputed threshold equals the mean of the interior background limited to the configured range")
+	}
+}
+
+// ---------- C15 recompute sites (structural; updateBackground and
+// calculateThreshold replaced by recording stubs)
+
+var (
+	zzUBCalls, zzCTCalls int
+	zzUBPrevFFC          bool
+	zzCTArgOK            bool
+	zzGhostAvg           float64
+)
+
+func zzStubUpdateBackground(d *motionDetector, f *cptvframe.Frame, prevFFC bool) (float64, bool) {
+	zzUBCalls++
+	zzUBPrevFFC = prevFFC
+	return zzGhostAvg, zzBool("changed", 0)
+}
+
+func zzStubCalcThreshold(d *motionDetector, avg float64) {
+	zzCTCalls++
+	zzCTArgOK = avg == zzGhostAvg && zzUBCalls == 1
+	d.tempThresh = zzU16("newTh", 0)
+}
+
+// ZZ_C15_sites: in one Detect call the threshold changes only through
+// calculateThreshold applied to the average that updateBackground returned in
+// that same call, never on an FFC-affected frame, and the background update is
+// told whether the previous frame was FFC-affected.
+func ZZ_C15_sites() {
+	W, H, e := 2, 2, 0
+	d := zzDynDetector(W, H, e)
+	d.dynamicThresh = zzBool("dynamic", 0)
+	zzGhostAvg = float64(zzU16("avg", 0))
+	f := cptvframe.NewFrame(zzCam{W, H, 1})
+	zzFillFrame(f, W, H, "", 0)
+	on, last := zzI64("timeOn", 0), zzI64("lastFFC", 0)
+	zzAssume(0 <= last && last <= on && on < 1<<60)
+	f.Status.TimeOn, f.Status.LastFFCTime = time.Duration(on), time.Duration(last)
+	affected := on-last < int64(10*time.Second)
+	th0, prev0, dyn := d.tempThresh, d.affectedByFCC, d.dynamicThresh
+	zzReach("pre-state")
+	d.Detect(f)
+	if affected || !dyn {
+		zzAssert(zzUBCalls == 0 && zzCTCalls == 0 && d.tempThresh == th0, "C15: no background update or threshold recompute on FFC-affected frames (or with a fixed threshold)")
+	} else {
+		zzReach("dynamic clean frame")
+		zzAssert(zzUBCalls == 1 && zzUBPrevFFC == prev0, "C15: background updated once per clean frame and told about a preceding FFC")
+	}
+	zzAssert(zzCTCalls <= 1, "C15: at most one recompute per frame")
+	if zzCTCalls == 1 {
+		zzReach("recomputed")
+		zzAssert(zzCTArgOK, "C15: threshold recomputed from the background mean returned in the same call")
+	}
+	if d.tempThresh != th0 {
+		zzAssert(zzCTCalls == 1, "C15: threshold changes only by recomputation from the background mean")
+	}
+}
